@@ -5,6 +5,7 @@ cd /verif
 # evidence files are rewritten by every check run: keep the ones of the unchanged tree, not of the seeded runs
 rm -rf /tmp/verif_evidence_keep && cp -r evidence /tmp/verif_evidence_keep
 : > seeded/RESULTS.tsv
+: > seeded/REPLAY.tsv
 for d in seeded/C*-*; do
   pid=$(basename $d | cut -d- -f1)
   if ! git -C /repo apply --check $PWD/$d/patch.diff 2>/dev/null; then echo -e "$(basename $d)\tpatch-does-not-apply" >> seeded/RESULTS.tsv; continue; fi
@@ -12,6 +13,18 @@ for d in seeded/C*-*; do
   if grep -q "\"property_id\": \"$pid\"" MANIFEST.json && ! python3 -c "import json,sys;m=json.load(open('MANIFEST.json'));sys.exit(0 if any(c['property_id']=='$pid' for c in m['checks']) else 1)"; then :; fi
   out=$(./check $pid quick 2>&1); rc=$?
   git -C /repo checkout -- .
+  python3 - "$pid" "$(basename $d)" "$out" >> seeded/REPLAY.tsv <<'PY'
+import json,sys,re,os
+pid,seed,out=sys.argv[1:4]
+for m in re.finditer(r"^VIOLATION property=\S+ replay=(\S+)", out, re.M):
+    f=m.group(1)
+    try:
+        d=json.load(open(f))
+    except Exception as e:
+        print(f"{seed}\t{os.path.basename(f)}\tunreadable"); continue
+    r=d.get("replay") or {}
+    print(f"{seed}\t{d.get('obligation', os.path.basename(f))}\t{d.get('answer','')}\t{r.get('status','')}\t{(r.get('reason','') or '')[:160]}")
+PY
   viol=$(echo "$out" | grep "^VIOLATION" | sed 's/.*obligation=//' | tr '\n' ';' | cut -c1-400)
   echo -e "$(basename $d)\texit=$rc\t$viol" >> seeded/RESULTS.tsv
 done
